@@ -31,6 +31,11 @@ pub struct Event {
 
 #[derive(Debug, Clone, PartialEq)]
 pub enum Outcome {
+    /// verified, but only after the reply timeout had expired (found on the retired socket
+    /// once the round was over)
+    Late,
+    /// no reply, and the server never became quiescent within the cap: nothing can be said
+    NoReplyServerBusy,
     Verified,
     Invalid(String),
     NoReply,
@@ -40,6 +45,9 @@ pub enum Outcome {
 pub struct ClientResult {
     pub events: Vec<Event>,
     pub extra_datagrams: usize,
+    /// requests that were not answered within the reply timeout: (index into events, the socket
+    /// they were sent from, packet, nonce). They stay open until the end of the round.
+    pub open_ops: Vec<(usize, UdpSocket, Vec<u8>, Vec<u8>)>,
 }
 
 /// closed-loop client: one outstanding request at a time on its own socket
@@ -51,6 +59,8 @@ fn client_loop(id: usize, port: u16, pk: Vec<u8>, srv: Vec<u8>, seed: u64, nreq:
     let mut events = Vec::with_capacity(nreq.min(100_000));
     let mut buf = vec![0u8; 4096];
     let mut misses = 0;
+    let mut open_ops: Vec<(usize, UdpSocket, Vec<u8>, Vec<u8>)> = Vec::new();
+    let mut last_answered = true;
     for seq in 0..nreq {
         if stop.load(Ordering::Relaxed) {
             break;
@@ -65,6 +75,7 @@ fn client_loop(id: usize, port: u16, pk: Vec<u8>, srv: Vec<u8>, seed: u64, nreq:
         }
         match sock.recv_from(&mut buf) {
             Ok((n, _)) => {
+                last_answered = true;
                 let view = ReqView { proto, packet: &pkt, nonce };
                 match verify_response(&view, &buf[..n], &pk, Opts { strict: true }) {
                     Ok(v) => events.push(Event { client: id, seq, proto, outcome: Outcome::Verified, online_pk: v.online_pk, srep_hash: fnv64(&v.srep), rtt_us: t0.elapsed().as_micros() as u64 }),
@@ -74,14 +85,18 @@ fn client_loop(id: usize, port: u16, pk: Vec<u8>, srv: Vec<u8>, seed: u64, nreq:
             Err(_) => {
                 events.push(Event { client: id, seq, proto, outcome: Outcome::NoReply, online_pk: vec![], srep_hash: 0, rtt_us: 0 });
                 misses += 1;
+                last_answered = false;
+                // the operation stays open: its reply may still arrive. Retire this socket (kept
+                // with the request, to be looked at once the round is over) so that a late reply
+                // cannot be mistaken for the answer to the next request.
+                let fresh = UdpSocket::bind("127.0.0.1:0").unwrap();
+                fresh.set_read_timeout(Some(reply_timeout)).unwrap();
+                let old = std::mem::replace(&mut sock, fresh);
+                open_ops.push((events.len() - 1, old, pkt, nonce));
                 // a dead worker would cost reply_timeout per request: three in a row is enough evidence
                 if misses >= 3 {
                     break;
                 }
-                // the operation stays open: its reply may still arrive. Retire this socket so that a
-                // late reply cannot be mistaken for the answer to the next request.
-                sock = UdpSocket::bind("127.0.0.1:0").unwrap();
-                sock.set_read_timeout(Some(reply_timeout)).unwrap();
                 continue;
             }
         }
@@ -95,10 +110,10 @@ fn client_loop(id: usize, port: u16, pk: Vec<u8>, srv: Vec<u8>, seed: u64, nreq:
     sock.set_read_timeout(Some(Duration::from_millis(120))).unwrap();
     let mut extra = 0;
     let t_drain = Instant::now();
-    while extra < 1000 && t_drain.elapsed() < Duration::from_secs(2) && sock.recv_from(&mut buf).is_ok() {
+    while last_answered && extra < 1000 && t_drain.elapsed() < Duration::from_secs(2) && sock.recv_from(&mut buf).is_ok() {
         extra += 1;
     }
-    ClientResult { events, extra_datagrams: extra }
+    ClientResult { events, extra_datagrams: extra, open_ops }
 }
 
 fn start_server(ctx: &Ctx, out: &mut Out, cfg0: &SrvCfg, tag: &str, pin: Option<&str>) -> Option<ServerProc> {
@@ -162,14 +177,21 @@ fn c18_round(ctx: &Ctx, out: &mut Out, rng: &mut Rng, k: u64) {
     let Some(mut sp) = start_server(ctx, out, &cfg, &format!("c18-{}", k), pin) else { return };
     let port = sp.cfg.port;
     let health_stop = Arc::new(AtomicBool::new(false));
+    // the health clients fall silent while the monitor judges whether the server has settled
+    let health_pause = Arc::new(AtomicBool::new(false));
     let health_threads: Vec<_> = match sp.cfg.health_check_port {
         Some(hp) if health_round => (0..2)
             .map(|hi| {
                 let st = health_stop.clone();
+                let pause = health_pause.clone();
                 std::thread::spawn(move || {
                     let (mut ok, mut bad) = (0u64, 0u64);
                     let mut n = 0u64;
                     while !st.load(Ordering::Relaxed) {
+                        if pause.load(Ordering::Relaxed) {
+                            std::thread::sleep(Duration::from_millis(10));
+                            continue;
+                        }
                         n += 1;
                         // the second client is rude every other time: it connects and resets the
                         // connection at once (the server finds a dead peer when it accepts)
@@ -235,13 +257,45 @@ fn c18_round(ctx: &Ctx, out: &mut Out, rng: &mut Rng, k: u64) {
             std::thread::spawn(move || client_loop(i, port, pk, srv, s, per_client, stop, Duration::from_secs(5), think_extra))
         })
         .collect();
-    let results: Vec<ClientResult> = handles.into_iter().map(|h| h.join().unwrap()).collect();
+    let mut results: Vec<ClientResult> = handles.into_iter().map(|h| h.join().unwrap()).collect();
     spoof_stop.store(true, Ordering::Relaxed);
+    // requests that timed out are still open: once the load is over, wait until the server has
+    // nothing queued and uses no CPU, then look at their (retired) sockets. A reply found there
+    // was late, not lost; none there with the server quiescent means the request was lost.
+    if results.iter().any(|r| !r.open_ops.is_empty()) {
+        health_pause.store(true, Ordering::Relaxed);
+        let quiet = sp.wait_quiescent(Duration::from_secs(if ctx.mode.is_empty() { 30 } else { 120 }));
+        let mut buf = vec![0u8; 4096];
+        for r in results.iter_mut() {
+            let ops: Vec<_> = r.open_ops.drain(..).collect();
+            for (ei, sock, pkt, nonce) in ops {
+                let _ = sock.set_nonblocking(true);
+                let proto = r.events[ei].proto;
+                let mut got = false;
+                while let Ok((n, _)) = sock.recv_from(&mut buf) {
+                    let view = ReqView { proto, packet: &pkt, nonce: nonce.clone() };
+                    match verify_response(&view, &buf[..n], &pk, Opts { strict: true }) {
+                        Ok(_) if !got => {
+                            got = true;
+                            r.events[ei].outcome = Outcome::Late;
+                        }
+                        Ok(_) => r.extra_datagrams += 1,
+                        Err(e) => r.events[ei].outcome = Outcome::Invalid(e),
+                    }
+                }
+                if !got && !quiet && r.events[ei].outcome == Outcome::NoReply {
+                    r.events[ei].outcome = Outcome::NoReplyServerBusy;
+                }
+            }
+        }
+        health_pause.store(false, Ordering::Relaxed);
+    }
     if let Some(h) = spoofer {
         out.obs("port0_requests_spoofed", h.join().unwrap_or(0) as i64);
     }
     // open-loop burst on a quiet server: one socket sends 80 requests back to back (more than one
     // process_events call may answer when batch_size is 1), reads nothing meanwhile, then waits
+    let mut burst_busy = false;
     let burst_missing = {
         let mut brng = Rng::new(rng.next_u64());
         let sock = UdpSocket::bind("127.0.0.1:0").unwrap();
@@ -280,8 +334,10 @@ fn c18_round(ctx: &Ctx, out: &mut Out, rng: &mut Rng, k: u64) {
         if frozen {
             sp.signal(libc::SIGCONT);
         }
-        sock.set_read_timeout(Some(Duration::from_millis(2500))).unwrap();
+        sock.set_read_timeout(Some(Duration::from_millis(400))).unwrap();
         let mut buf = vec![0u8; 4096];
+        let t_burst = Instant::now();
+        let mut quiet_streak = 0;
         while !pending.is_empty() {
             match sock.recv_from(&mut buf) {
                 Ok((n, _)) => {
@@ -301,11 +357,36 @@ fn c18_round(ctx: &Ctx, out: &mut Out, rng: &mut Rng, k: u64) {
                             break;
                         }
                     }
+                    if quiet_streak >= 2 {
+                        sock.set_read_timeout(Some(Duration::from_millis(400))).unwrap();
+                    }
+                    quiet_streak = 0;
                 }
-                Err(_) => break,
+                Err(_) => {
+                    // silence: lost only if the server has nothing queued and is not working
+                    health_pause.store(true, Ordering::Relaxed);
+                    if quiet_streak >= 2 {
+                        // (the pass after quiescence was established found nothing either)
+                        break;
+                    }
+                    if sp.exited().is_some() || sp.quiescent(Duration::from_millis(150)) {
+                        quiet_streak += 1;
+                        if quiet_streak >= 2 {
+                            // one more look at our own socket: a reply may have landed meanwhile
+                            sock.set_read_timeout(Some(Duration::from_millis(5))).unwrap();
+                        }
+                    } else {
+                        quiet_streak = 0;
+                    }
+                    if t_burst.elapsed() > Duration::from_secs(if ctx.mode.is_empty() { 30 } else { 120 }) {
+                        burst_busy = true;
+                        break;
+                    }
+                }
             }
         }
         out.obs("burst_phases", 1);
+        health_pause.store(false, Ordering::Relaxed);
         pending.len()
     };
     health_stop.store(true, Ordering::Relaxed);
@@ -348,6 +429,7 @@ fn c18_round(ctx: &Ctx, out: &mut Out, rng: &mut Rng, k: u64) {
     let mut workers = std::collections::HashSet::new();
     let mut batches: std::collections::HashMap<u64, Vec<usize>> = std::collections::HashMap::new();
     let (mut verified, mut missing) = (0u64, 0u64);
+    let mut late = 0u64;
     for r in &results {
         if r.extra_datagrams > 0 {
             out.violation("C18 second-reply", &format!("{} datagrams arrived after the client's last request had been answered", r.extra_datagrams), desc.clone());
@@ -370,6 +452,11 @@ fn c18_round(ctx: &Ctx, out: &mut Out, rng: &mut Rng, k: u64) {
                     desc.clone(),
                 ),
                 Outcome::NoReply => missing += 1,
+                Outcome::Late => {
+                    out.obs("replies_later_than_the_reply_bound", 1);
+                    late += 1;
+                }
+                Outcome::NoReplyServerBusy => out.inconclusive("request unanswered, server never became quiescent (overloaded machine)"),
                 Outcome::SendFailed => out.inconclusive("client send failed"),
             }
         }
@@ -378,13 +465,20 @@ fn c18_round(ctx: &Ctx, out: &mut Out, rng: &mut Rng, k: u64) {
     if health_bad > 0 {
         out.violation("C18 health-check-unanswered-under-load", &format!("{} health-check connections were not answered with HTTP 200 within 3 s during the round", health_bad), desc.clone());
     }
-    if burst_missing > 0 {
+    if late > 0 {
+        // answered exactly once and validly, but later than the 5 s this monitor allows a reply:
+        // a statement about the machine, not about the server
+        out.inconclusive("replies arrived later than the 5 s reply bound (loaded machine)");
+    }
+    if burst_missing > 0 && burst_busy {
+        out.inconclusive("burst not fully answered, server never became quiescent (overloaded machine)");
+    } else if burst_missing > 0 {
         if drops1 != drops0 {
             out.inconclusive("kernel drop counter moved");
         } else {
             out.violation(
                 &format!("C18 burst requests-unanswered batch_size={}", if cfg.batch_size == Some(1) { "1" } else { ">1" }),
-                &format!("{} requests sent back to back from one socket to a quiet server were not answered within 2.5 s of silence, and the kernel dropped nothing ({} workers, batch_size {:?})", burst_missing, nworkers, cfg.batch_size),
+                &format!("{} requests sent back to back from one socket to a quiet server were never answered: the server has nothing queued and is idle, and the kernel dropped nothing ({} workers, batch_size {:?})", burst_missing, nworkers, cfg.batch_size),
                 desc.clone(),
             );
         }
@@ -401,7 +495,7 @@ fn c18_round(ctx: &Ctx, out: &mut Out, rng: &mut Rng, k: u64) {
         if drops1 != drops0 {
             out.inconclusive("kernel drop counter moved");
         } else {
-            out.violation("C18 no-reply-within-5s", &format!("{} closed-loop requests got no reply within 5 s and the kernel dropped nothing ({} workers, {} clients)", missing, nworkers, nclients), desc.clone());
+            out.violation("C18 no-reply-within-5s", &format!("{} closed-loop requests got no reply within 5 s nor by the time the server had become idle with nothing queued, and the kernel dropped nothing ({} workers, {} clients)", missing, nworkers, nclients), desc.clone());
         }
     }
     // ---- server side
